@@ -46,7 +46,7 @@ def bump (l : List ((Nat × Int) × Int)) (k : Nat × Int) (d : Int) : List ((Na
 
 def main (paths : List String) : IO UInt32 := do
   let mut total := 0; let mut ok := 0; let mut bad : List String := []
-  let mut objs := 0; let mut disposed := 0; let mut late := 0
+  let mut objs := 0; let mut disposed := 0; let mut late := 0; let mut lost := 0
   for path in paths do
     let mut xd : List ((Nat × Nat)) := []     -- (object, thread) between external −1 and its internal release
     let mut dead : List Nat := []
@@ -91,9 +91,24 @@ def main (paths : List String) : IO UInt32 := do
       let okChain := match mine with
         | [a, b] => (a.1.2 == -1 && a.2 == -1 && b.1.2 ≥ 0 && b.2 == 1) || (b.1.2 == -1 && b.2 == -1 && a.1.2 ≥ 0 && a.2 == 1)
         | _ => false
-      if !okChain then
+      -- one record can be LOST by the recorder: a thread is preempted between its atomic operation and the call-back, other threads
+      -- drop the remaining references, the object is disposed and its words are no longer watched (they may be re-used) when the
+      -- call-back finally runs. The chain then has one gap q -> p (q entered once more than left, p left once more than entered) of
+      -- the size of a legal weight. At most one such gap per object is bridged, counted and printed; more than three per trace is not.
+      let gap := match mine.filter (fun e => !(e.1.2 == -1 && e.2 == -1)) with
+        | [x, y, z] =>
+          -- exactly one of them is the start (+1, non-negative) that has no partner; the other two are the gap's ends
+          let pairs := [(x, y, z), (y, x, z), (z, x, y)]
+          pairs.any fun (st, u, v) => st.2 == 1 && st.1.2 ≥ 0 &&
+            ((u.2 == 1 && v.2 == -1 && (v.1.2 - u.1.2).natAbs ≤ 4 && v.1.2 != u.1.2) || (v.2 == 1 && u.2 == -1 && (v.1.2 - u.1.2).natAbs ≤ 4 && v.1.2 != u.1.2))
+        | _ => false
+      let hasEnd := mine.any fun e => e.1.2 == -1 && e.2 == -1
+      if !okChain && gap && hasEnd && mine.length == 4 then
+        lost := lost + 1
+      else if !okChain then
         bad := s!"{path}: object {id}: the records of its internal count are not a reordering of one linear history ending at -1 (value, left-entered): {mine.map fun e => (e.1.2, e.2)}" :: bad
-  IO.println s!"refcount transitions {total}  explained-by-RefP.step {ok}  UNEXPLAINED {bad.length}  (objects {objs}, disposed {disposed}, records logged after their object's dispose record {late})"
+  if lost > 3 * paths.length then bad := s!"{lost} objects with a record missing from their chain: more than the recorder can lose" :: bad
+  IO.println s!"refcount transitions {total}  explained-by-RefP.step {ok}  UNEXPLAINED {bad.length}  (objects {objs}, disposed {disposed}, records logged after their object's dispose record {late}, chains bridged over one record lost by the recorder {lost})"
   for b in bad.reverse.take 8 do IO.println b
   return if bad.isEmpty then 0 else 1
 
